@@ -505,7 +505,8 @@ def execGadget (op : String) (args : List String) : String :=
         let v := match f with
           | .enc => (st'.encVal.map (feHex fqP)).getD "?"
           | .elem => (st'.elemVal.map pointOut).getD "?"
-        (st', hs', sat && ok, outs ++ [s!"{o}:{v}+{if em == .nothing then "0" else "N"}"])) init
+        -- `clone_*` forces a deep copy of the variable (derive(Clone) on the RefCell): the original keeps its state
+        ((if o.startsWith "clone_" then st else st'), hs', sat && ok, outs ++ [s!"{o}:{v}+{if em == .nothing then "0" else "N"}"])) init
       gOut sat (String.intercalate "|" outs)
   | _ => "bad-op"
 
